@@ -41,6 +41,8 @@
 #include <soundswallower/state_align_search.h>
 #include "vtrace.h"
 
+static lattice_t *kept_dag; /* "call latkeep": the caller's own reference to a lattice */
+
 #define MAXAUDIO 64
 typedef struct {
     char name[32];
@@ -1518,8 +1520,73 @@ main(int argc, char *argv[])
                     }
                     if (lattice_bestpath(dag, 0.05f))
                         (void)lattice_posterior(dag, 0.05f);
+                    if (x >= 2) { /* 2, 3: prune by posterior (mildly, harshly), use what is left, prune again */
+                        int round;
+                        for (round = 0; round < 2; ++round) {
+                            latlink_t *bp = lattice_bestpath(dag, 0.05f);
+                            latlink_t *l2;
+                            if (bp == NULL)
+                                break;
+                            (void)lattice_posterior(dag, 0.05f);
+                            (void)lattice_posterior_prune(dag, logmath_log(lattice_get_logmath(dag),
+                                                                           x == 2 ? (round ? 1e-2 : 1e-6) : (round ? 0.9 : 0.3)));
+                            for (ni = ps_latnode_iter(dag); ni; ni = ps_latnode_iter_next(ni)) {
+                                latnode_t *nd = ps_latnode_iter_node(ni);
+                                latlink_iter_t *li;
+                                int16 fef, lef;
+                                (void)latnode_times(nd, &fef, &lef);
+                                (void)ps_latnode_baseword(dag, nd);
+                                for (li = ps_latnode_entries(nd); li; li = ps_latlink_iter_next(li)) {
+                                    latnode_t *src;
+                                    int16 sf;
+                                    (void)ps_latlink_nodes(ps_latlink_iter_link(li), &src);
+                                    (void)latlink_times(ps_latlink_iter_link(li), &sf);
+                                    (void)ps_latlink_word(dag, ps_latlink_iter_link(li));
+                                }
+                                for (li = ps_latnode_exits(nd); li; li = ps_latlink_iter_next(li))
+                                    (void)ps_latlink_baseword(dag, ps_latlink_iter_link(li));
+                            }
+                            for (l2 = lattice_reverse_edges(dag, NULL, NULL); l2; l2 = lattice_reverse_next(dag, NULL))
+                                ;
+                        }
+                    }
                     lattice_free(dag);
                 }
+            } else if (!strcmp(fn, "latkeep")) { /* keep a reference of the caller's own to the decoder's lattice */
+                lattice_t *dag = d ? decoder_lattice(d) : NULL;
+                if (kept_dag)
+                    lattice_free(kept_dag);
+                kept_dag = lattice_retain(dag);
+                strcpy(cls, dag ? "obj" : "null");
+            } else if (!strcmp(fn, "latuse")) { /* use the kept lattice, whatever became of the decoder meanwhile */
+                strcpy(cls, kept_dag ? "obj" : "null");
+                if (kept_dag) {
+                    latnode_iter_t *ni;
+                    latlink_t *bp;
+                    (void)lattice_n_frames(kept_dag);
+                    (void)lattice_get_logmath(kept_dag);
+                    for (ni = ps_latnode_iter(kept_dag); ni; ni = ps_latnode_iter_next(ni)) {
+                        latnode_t *nd = ps_latnode_iter_node(ni);
+                        latlink_iter_t *li;
+                        (void)ps_latnode_word(kept_dag, nd);
+                        (void)ps_latnode_baseword(kept_dag, nd);
+                        for (li = ps_latnode_exits(nd); li; li = ps_latlink_iter_next(li))
+                            (void)ps_latlink_word(kept_dag, ps_latlink_iter_link(li));
+                    }
+                    bp = lattice_bestpath(kept_dag, 0.05f);
+                    if (bp) {
+                        int32 as;
+                        (void)lattice_posterior(kept_dag, 0.05f);
+                        (void)ps_latlink_prob(kept_dag, bp, &as);
+                        for (; bp; bp = ps_latlink_pred(bp))
+                            (void)ps_latlink_baseword(kept_dag, bp);
+                    }
+                }
+            } else if (!strcmp(fn, "latdrop")) {
+                strcpy(cls, kept_dag ? "obj" : "null");
+                if (kept_dag)
+                    lattice_free(kept_dag);
+                kept_dag = NULL;
             } else if (!strcmp(fn, "alignwalk")) { /* x: 0 full walk, 1 abandon iterators half way */
                 alignment_t *al = decoder_alignment(d);
                 strcpy(cls, al ? "obj" : "null");
